@@ -258,6 +258,8 @@ def show(t, depth=0):
         return repr(t[1])
     if tag == "param":
         return t[1]
+    if tag == "local":
+        return t[1]
     if tag == "self":
         return "self"
     if tag == "global":
@@ -337,6 +339,7 @@ class TermBuilder:
         self.bindings = bindings or {}  # param name -> term (for inlining)
         self._parent_builder = None
         self.guarded = False
+        self.shallow = False
         self._pcs = None
         self._pc_busy = False
 
@@ -356,6 +359,13 @@ class TermBuilder:
     def name(self, ident, at, env):
         if ident in env:
             return env[ident]
+        if self.shallow and self.rd.all_defs(ident) and ident not in self.rd.global_names:
+            d = self.rd.all_defs(ident)
+            if all(x.kind == "param" for x in d):
+                if ident == "self" and self.fn.cls is not None and not self.fn.is_static:
+                    return SELF
+                return ("param", ident)
+            return ("local", ident)
         node = self._node(at)
         if ident in self.rd.global_names:
             return self.global_name(ident)
@@ -873,11 +883,12 @@ def neg_test(t):
 _builders = {}
 
 
-def builder(prog, fn, self_cls=None, inline=True, guarded=False):
-    key = (id(prog), fn.qualname, self_cls.qualname if self_cls else None, inline, guarded)
+def builder(prog, fn, self_cls=None, inline=True, guarded=False, shallow=False):
+    key = (id(prog), fn.qualname, self_cls.qualname if self_cls else None, inline, guarded, shallow)
     if key not in _builders:
         _builders[key] = TermBuilder(prog, fn, self_cls, inline)
         _builders[key].guarded = guarded
+        _builders[key].shallow = shallow
     return _builders[key]
 
 
